@@ -85,7 +85,7 @@ def main(out_path):
     L = ['/- GENERATED by tools/gen_chainclaim.py from lightning/src/chain/channelmonitor.rs — do not edit. -/',
          'namespace Ldk.ChainClaimGen', '',
          '/-- `HTLCUpdate` as queued in `pending_monitor_events` (`source` = identity of the HTLC, i.e. of the inbound HTLC to resolve) -/',
-         'structure HtlcEv where', '  source : Nat', '  payment_hash : Nat', '  preimage : Option Nat', '  value_sat : Nat', '  deriving DecidableEq, Repr', '']
+         'structure HtlcEv where', '  source : Nat', '  payment_hash : Nat', '  preimage : Option Nat', '  htlc_value_satoshis : Nat', '  deriving DecidableEq, Repr', '']
     for name in ('accepted', 'offered'):
         key, lean = keys[name]
         L += ['/-- is_resolving_htlc_output, `%s_preimage_claim` arm: an already queued `MonitorEvent::HTLCEvent(upd)` makes the claim a' % name,
